@@ -29,7 +29,7 @@ def get_velocity_bins(velocity_max=None, velocity_bins=None):
         velocity_bins = VELOCITY_BINS
 
     bin_size = round(velocity_max / velocity_bins)
-    bins = [min(velocity_max, ((i + 1) * bin_size) + bin_size / 2) for i in range(0, velocity_bins)]
+    bins = [int(min(velocity_max, ((i + 1) * bin_size) + bin_size / 2)) for i in range(0, velocity_bins)]
 
     return bins
 
